@@ -20,3 +20,9 @@ import Ark.Props.C09
 #print axioms Ark.Props.C09.batch_newBatch_callbacks
 #print axioms Ark.Props.C09.batch_removeEntities_callbacks
 #print axioms Ark.Props.C09.batch_exchangeBatch_callbacks
+#print axioms Ark.Props.C09.rel_setRelations_sees
+#print axioms Ark.Props.C09.rel_newEntity_rel_sees
+#print axioms Ark.Props.C09.rel_add_rel_sees
+#print axioms Ark.Props.C09.rel_remove_rel_sees
+#print axioms Ark.Props.C09.rel_removeEntity_rel_sees
+#print axioms Ark.Props.C09.rel_round_log_blind
